@@ -61,6 +61,7 @@ pub struct VersionInfo {
 
 pub struct SuperVersionInfo {
     pub seqno: SeqNo,
+    pub raw_version: crate::version::Version,
     pub version: VersionInfo,
     pub active: Arc<Memtable>,
     pub sealed: Vec<Arc<Memtable>>,
@@ -155,6 +156,7 @@ pub fn history(tree: &Tree) -> Vec<SuperVersionInfo> {
     lock.verif_iter()
         .map(|sv| SuperVersionInfo {
             seqno: sv.seqno,
+            raw_version: sv.version.clone(),
             version: version_info(&sv.version),
             active: sv.active_memtable.clone(),
             sealed: sv.sealed_memtables.iter().cloned().collect(),
@@ -179,6 +181,45 @@ pub fn blob_file_id_counter(tree: &Tree) -> u64 {
 #[must_use]
 pub fn seqno_counters(tree: &Tree) -> (SeqNo, SeqNo) {
     (tree.config.seqno.get(), tree.config.visible_seqno.get())
+}
+
+/// A decoded blob pointer (the value of an `Indirection` entry).
+#[derive(Clone, Copy, Debug, PartialEq, Eq)]
+pub struct PointerInfo {
+    pub blob_file_id: BlobFileId,
+    pub offset: u64,
+    pub on_disk_size: u32,
+    pub size: u32,
+}
+
+#[must_use]
+pub fn decode_indirection(bytes: &[u8]) -> Option<PointerInfo> {
+    use crate::coding::Decode;
+    let mut r = bytes;
+    let p = crate::BlobIndirection::decode_from(&mut r).ok()?;
+    Some(PointerInfo {
+        blob_file_id: p.vhandle.blob_file_id,
+        offset: p.vhandle.offset,
+        on_disk_size: p.vhandle.on_disk_size,
+        size: p.size,
+    })
+}
+
+/// Resolves a blob pointer through the blob files of `version` (bypassing the blob cache of the tree).
+pub fn resolve_indirection(
+    tree: &Tree,
+    version: &crate::version::Version,
+    key: &[u8],
+    bytes: &[u8],
+) -> crate::Result<Option<Vec<u8>>> {
+    use crate::coding::Decode;
+    let mut r = bytes;
+    let p = crate::BlobIndirection::decode_from(&mut r)?;
+    let cache = crate::Cache::with_capacity_bytes(0);
+    let folder = tree.config.path.join(crate::file::BLOBS_FOLDER);
+    crate::vlog::Accessor::new(&version.blob_files)
+        .get(tree.id, &folder, key, &p.vhandle, &cache)
+        .map(|o| o.map(|v| v.to_vec()))
 }
 
 // ---------------------------------------------------------------------------
